@@ -234,6 +234,14 @@ def run(ctx):
   ok = any(isinstance(n, ast.If) and isinstance(n.body[-1], ast.Raise) and 'not in self._selector_map' in u(n.test) for n in walk_local(ms.node))
   ctx.check(ok, 'C08.minimal', smc + '.minimal_selector', 'an unknown complete name raises KeyError', 'minimal_selector no longer rejects unknown names', ms.loc(), instance='unknown')
 
+  # the one place where Gin tells the user which name to bind: the missing-binding error of the wrapper uses the minimal selector
+  gw = ctx.func('config._make_gin_wrapper').nested.get('gin_wrapper')
+  if gw is not None:
+    msc = [c_ for c_ in walk_local(gw.node) if isinstance(c_, ast.Call) and u(c_.func) == '_REGISTRY.minimal_selector']
+    rte = [r_ for r_ in walk_local(gw.node) if isinstance(r_, ast.Raise) and r_.exc is not None and 'RuntimeError' in u(r_.exc)]
+    ctx.check(bool(msc) or not rte, 'C08.minimal', construct(gw), 'the name reported for a configurable with missing bindings is its minimal selector',
+              'the missing-binding error names the configurable without _REGISTRY.minimal_selector: the reported name can be ambiguous and does not '
+              'resolve back to the entry', gw.loc(rte[0]) if rte else gw.loc(), instance='error-names')
   # ---- C08.sync
   wr = {}
   for name, m in sorted(sm.methods.items()):
